@@ -8,11 +8,11 @@ PROOF_MODULES = ["GrpcProofs.Properties.C34"]
 THEOREMS = ["GrpcProofs.C34." + t for t in (
     "constants_pinned", "dedup_spec", "interleave_perm", "interleave_preserves_family_order",
     "interleave_starts_with_first_address", "preprocess_ok", "ready_reported_only_for_raw_ready",
-    "pick_returns_only_ready_subconn", "others_shut_down_on_ready", "connect_order_is_list_order", "tf_after_all_failed", "sticky_tf")]
+    "pick_returns_only_ready_subconn", "stale_timer_callback_is_inert", "others_shut_down_on_ready", "connect_order_is_list_order", "tf_after_all_failed", "sticky_tf")]
 DESIGN_REF = "DESIGN.md section 8, C34"
 TECHNIQUE = ("Lean 4 theorems (list induction for de-dup/interleave, invariants by induction over op lists for the balancer) about a "
              "full port of the pick_first state machine + T2 differential correspondence on the real balancer (recording ClientConn and "
-             "SubConns, virtual-time happy-eyeballs timer in a synctest bubble, pinned shuffle) + T1 on the address pre-processing")
+             "SubConns, harness-controlled happy-eyeballs timer incl. callbacks that fired before Stop(), pinned shuffle) + T1 on the address pre-processing")
 LEVEL_TEXT = ("Machine-checked Lean proofs: for every address list, pre-processing is a permutation of the de-duplicated input that keeps "
               "each family's order and starts with the resolver's first address; for every op history of the model, READY is only "
               "reported / a SubConn only picked while that SubConn's raw state is READY, all other SubConns are shut down when one "
@@ -20,7 +20,8 @@ LEVEL_TEXT = ("Machine-checked Lean proofs: for every address list, pre-processi
               "reported when the last address failed, and (sticky_tf, full strength since /repo 97a72f7) from TRANSIENT_FAILURE with "
               "a non-empty list and no READY SubConn every continuation of any length — resolver updates with ANY non-empty list, "
               "SubConn reports, timer, Pick, ExitIdle, resolver errors — reports nothing but TRANSIENT_FAILURE until a SubConn "
-              "becomes READY or goes CONNECTING->IDLE.")
+              "becomes READY or goes CONNECTING->IDLE; the callback of a cancelled happy-eyeballs timer that had already fired "
+              "(waiting for b.mu when Stop() came) is inert, and while READY is the reported state the READY SubConn is the only one.")
 LEVEL_NOTE = ("Trusted: Lean kernel; hand model lean/GrpcModel/Model/PickFirst.lean tied by differential runs. Domain of the fake channel "
               "(what the real channel guarantees): SubConn states are reported only for existing SubConns, SHUTDOWN only after "
               "Shutdown(); health updates only reach a listener registered since the SubConn last became READY. Readings: (1) 'latest "
@@ -32,13 +33,18 @@ LEVEL_NOTE = ("Trusted: Lean kernel; hand model lean/GrpcModel/Model/PickFirst.l
               "(4) interleaveAddresses is modelled by rounds (one member of each family per cycle), the loop's modular index is not "
               "ported literally; the pfaddr tie compares it with the real function. Weighted shuffling (A113) is switched off in "
               "the harness; plain shuffling is pinned to list reversal.")
-GAP = ("A113 weighted shuffle (floats); real goroutine races between the timer callback and channel calls (serialised by b.mu); "
+GAP = ("A113 weighted shuffle (floats); the race between the timer goroutine and channel calls is modelled at the mutex grain: a "
+       "timer either fires as an op of its own or, having fired before it was stopped, runs its callback later (`late`); "
        "NewSubConn errors; illegal BalancerConfig types")
 ASSUMPTIONS = ["b.mu serialises all entry points: a history is a sequence of ops", "addresses differ only in Addr (no attributes/server names)"]
 RULE = ("s_pickfirst: random op sequences (<= 70 ops): resolver updates (1-6 addresses of 3 families out of a pool of 9, duplicates, "
         "multi-address endpoints, as Endpoints or Addresses, shuffle on/off, health listener on/off, empty lists), SubConn state "
         "reports that mostly follow the SubConn life cycle (IDLE->CONNECTING->READY|TF|IDLE, TF->IDLE, READY->IDLE) with 15% arbitrary "
-        "ones and stale reports for shut-down SubConns, health updates, timer ticks, Pick, ExitIdle, ResolverError, Close. pfaddr: "
+        "ones and stale reports for shut-down SubConns, health updates, timer ticks, late callbacks of cancelled timers (random, and "
+        "a directed family: every way a timer gets cancelled — READY, TF of the current address, CONNECTING->IDLE, resolver update "
+        "with the same/another first address, empty update, health-gated READY, Close — x list length 2-4 x position x follow-up), "
+        "Pick, ExitIdle, ResolverError, Close. The monitor also checks that no other SubConn exists while READY is reported and "
+        "that nothing is created after Close. pfaddr: "
         "every list of length <= 4 over 6 addresses (2 per family) + random lists up to 12 with duplicates and IPv4-mapped IPv6. "
         "A case is non-trivial when a SubConn became READY or TRANSIENT_FAILURE was reported.")
 
@@ -94,6 +100,9 @@ def gen_case(rng, maxlen, ci):
                 last = {j + 1: v for j, v in last.items()}
             if nxt == "R" and health and rng.random() < 0.8:
                 ops.append("health ~%d %s %d" % (k, rng.choice("RRRTC"), rng.randrange(0, 3)))
+        elif x < 0.70:
+            # the callback of a timer that was cancelled after it had fired (bad-op when there is none)
+            ops.append("late")
         elif x < 0.74:
             ops.append("tick")
             if rng.random() < 0.6:
@@ -136,6 +145,20 @@ def directed():
     # resolver updates around READY; empty list; resolver error
     yield Case("s_pickfirst", ["reserr", "update 0 0 e -", "update 0 1 e 4.1+6.1,4.2", "sc 1 C 0", "sc 1 R 0", "update 0 0 e 6.1,4.2",
                                "update 0 0 e 6.2", "sc 2 C 0", "reserr", "update 0 0 e -", "pick", "close", "pick", "sc 2 S 0"], "updates")
+    # a happy-eyeballs timer fires while the update that cancels it is being processed: its callback runs afterwards.
+    # Every way a timer gets cancelled (READY, TRANSIENT_FAILURE of the current address, CONNECTING->IDLE, resolver update
+    # with the same / another first address, empty update, Close) x position in the list x what happens next
+    k = 0
+    for n in (2, 3, 4):
+        addrs = ",".join(["4.1", "6.1", "4.2", "u.1"][:n])
+        for pos in range(n - 1):
+            pre = ["update 0 0 e " + addrs, "sc ~0 C 0"] + ["tick", "sc ~0 C 0"] * pos
+            for cancel in (["sc ~0 R 0"], ["sc ~0 T 1"], ["sc ~0 I 0"], ["update 0 0 e " + addrs], ["update 0 0 e 6.3," + addrs],
+                           ["update 0 0 e -"], ["update 1 0 e " + addrs, "sc ~0 R 0"]):
+                for post in (["late", "pick", "sc ~0 C 0", "sc ~0 R 0", "pick"], ["late", "late", "tick", "sc ~0 C 0", "sc ~0 T 2", "pick"]):
+                    yield Case("s_pickfirst", pre + cancel + post, "late-timer-%d" % k)
+                    k += 1
+    yield Case("s_pickfirst", ["update 0 0 e 4.1,4.2", "sc 1 C 0", "close", "late"], "late-timer-close")
     for l in ["6.1,6.2,4.1,4.2,u.1", "4.1,4.1,6.1,4.101,4.1,6.1", "u.1,u.2,u.1", "-", "4.1"]:
         yield Case("pfaddr", ["prep " + l], "prep-directed")
     yield Case("pfaddr", ["fam " + a for a in POOL], "families")
